@@ -2575,6 +2575,12 @@ class FileSet:
         if highest_resolution_index == 0:
             return None
 
+        if highest_resolution < FileSet._temporal_resolution["second"]:
+            # decisecond, centisecond, millisecond and microsecond are
+            # alternative notations of the fraction of a second (not nested
+            # in each other), so each of them wraps at the next second:
+            return FileSet._temporal_resolution["second"]
+
         resolutions = list(FileSet._temporal_resolution.values())
         superior_resolution = resolutions[highest_resolution_index - 1]
 
